@@ -226,6 +226,8 @@ def jobs_for(tier):
     add(world=2, group=2, presence="symbolic", presence_params=[2, 3], communicate_params=True, graft=None, fixed=dict(mom=0, wd=0, b1=0), T=2, **P4)
     # reduced-precision communication (one step from a common state): replicas identical, deviation = rounding of the communicated quantity
     add(world=2, group=2, comm="BF16", T=1, sps=1, graft=None, fixed=dict(mom=0), **P5)
+    # parameter dtype (4 bytes) != communication dtype (2 bytes) with block sizes that are not 64-byte multiples in either
+    add(world=2, group=2, comm="BF16", T=1, sps=1, graft=None, fixed=dict(mom=0, wd=0, b1=0), params=[(5, 5), (5,), (4, 3), (4,)], mpd=5, merge=False, mixed_sizes=True)
     add(world=2, group=2, comm="FP16", communicate_params=True, T=1, sps=1, graft="sgd", fixed=dict(mom=0, wd=0), **P5)
     if tier == "thorough":
         add(world=3, group=3, comm="BF16", communicate_params=True, T=1, sps=1, graft=None, **P5)
